@@ -64,7 +64,7 @@ type LifeLine struct {
 var lifeHandles = []string{"h1", "h2", "h3", "h4"}
 var lifeFeeds = []string{"f1", "f2"}
 var lifeNames = []string{"A", "B"}
-var lifeUrls = []string{"mem", "d1", "d2"}
+var lifeUrls = []string{"mem", "mp", "d1", "d2"}
 
 type lifeFeed struct {
 	mu    sync.Mutex
@@ -88,6 +88,11 @@ func (lr *lifeRun) realName(n string) string { return fmt.Sprintf("%s_t%d_%d", n
 func (lr *lifeRun) url(n, u string) string {
 	if u == "mem" {
 		return rosmar.InMemoryURL
+	}
+	if u == "mp" {
+		// a memory URL that carries a path: the directory in which the OTHER name's on-disk bucket (at d1) lives
+		other := map[string]string{"A": "B", "B": "A"}[n]
+		return "rosmar://" + filepath.Join(lr.scratch, fmt.Sprintf("d1_%s_t%d", other, lr.tr)) + "?mode=memory"
 	}
 	return "rosmar://" + filepath.Join(lr.scratch, fmt.Sprintf("%s_%s_t%d", u, n, lr.tr))
 }
